@@ -74,6 +74,13 @@ CONTENTS = {
     "server-request-same-id+notif": ["srvreq-same", "notif"],
     "server-request-same-id+response": ["srvreq-same", "resp"],
     "non-message+response": ["junk", "resp"],
+    # objects that bear the request's id and are NOT a response the client can deliver: `"result": null`, `"error": null`, no
+    # result member at all - each leaves the request unanswered by the server, so the transport still owes its one terminal message
+    "null-result-with-the-id": ["nullres"],
+    "null-error-with-the-id": ["nullerr"],
+    "id-and-nothing-else": ["idonly"],
+    "null-result-with-the-id+response": ["nullres", "resp"],
+    "notif+null-result-with-the-id": ["notif", "nullres"],
 }
 
 # name -> (before, after, evpos, space, crlf, blanks); extras: (kind, text) kind 0 comment 1 id 2 retry
@@ -128,13 +135,20 @@ def srv_msg(kind, tag, rid):
         return {"jsonrpc": "2.0", "id": f"s{tag}", "method": "sampling/createMessage", "params": {"k": tag}}
     if kind == "srvreq-same":
         return {"jsonrpc": "2.0", "id": base_id, "method": "sampling/createMessage", "params": {"k": tag}}
+    if kind == "nullres":
+        return {"jsonrpc": "2.0", "id": base_id, "result": None}
+    if kind == "nullerr":
+        return {"jsonrpc": "2.0", "id": base_id, "error": None}
+    if kind == "idonly":
+        return {"jsonrpc": "2.0", "id": base_id}
     if kind == "junk":
         return {"foo": 1, "k": tag}
     raise ValueError(kind)
 
 
 def is_jsonrpc_kind(kind):
-    return kind != "junk"
+    # an object with an id and a null / missing result is no more a JSON-RPC message than {"foo": 1}
+    return kind not in ("junk", "nullres", "nullerr", "idonly")
 
 
 def dumps(o):
